@@ -399,9 +399,7 @@ pub fn run(ctx: &mut Ctx) {
                     h.push(ops[(c % nops) as usize].clone());
                     c /= nops;
                 }
-                if case % 256 == 0 {
-                    ctx.rec.case_marker(case, "exhaustive history");
-                }
+                ctx.rec.case_marker_throttled(case, "exhaustive history", 256);
                 if case % 5 == 0 && len == k {
                     run_history::<Item>(ctx, init, &h, "Item");
                 } else {
@@ -415,7 +413,7 @@ pub fn run(ctx: &mut Ctx) {
     }
     ctx.rec.note("exhaustive_space", &space.to_string());
     // random long histories
-    let nr = ctx.n(600, 20000);
+    let nr = ctx.n(2000, 60000);
     let big = all_ops(9);
     for j in 0..nr as u64 {
         case += 1;
